@@ -288,17 +288,22 @@ def subdomainSub (amp : Bool) (hostname : Str) : Str := subdomainSubFrom amp hos
 
 def ampDash : Str := "amp-".toList
 
-/-- lines 377–383: a leading `amp-` is cut and what follows is decoded again -/
-def stripAmpPrefix (puny : Str → Str) (h : Str) : Str :=
-  if startsWith h ampDash then decodePunycodeHostname puny (h.drop 4) else h
+/-- lines 411–420 (`normalize_hostname`: 161–168): a leading `amp-` is cut, what follows is
+decoded again and — `again` = `strip_irrelevant_subdomains` — loses its irrelevant labels
+(`IRRELEVANT_SUBDOMAIN_AMP_RE`: this block runs under `normalize_amp` only) -/
+def stripAmpPrefix (puny : Str → Str) (again : Bool) (h : Str) : Str :=
+  if startsWith h ampDash then
+    let h := decodePunycodeHostname puny (h.drop 4)
+    if again then subdomainSub true h else h
+  else h
 
-/-- the hostname through lines 285–287, 360–366, 377–383 -/
+/-- the hostname through lines 300–301, 394–400, 411–420 -/
 def normHost (puny : Str → Str) (o : Opts) (h : Str) : Str :=
   if h.isEmpty then h
   else
     let h := lower (decodePunycodeHostname puny h)
     let h := if !h.isEmpty && o.stripIrrelevantSubdomains then subdomainSub o.normalizeAmp h else h
-    if o.normalizeAmp then stripAmpPrefix puny h else h
+    if o.normalizeAmp then stripAmpPrefix puny o.stripIrrelevantSubdomains h else h
 
 /-! ## from the parsed URL to the result -/
 
@@ -396,7 +401,7 @@ def normalizeHostname (puny : Str → Str) (normalizeAmp : Bool) (hostname : Str
   let h := stripControl (lower (strip hostname))
   let h := lower (decodePunycodeHostname puny h)
   let h := subdomainSub normalizeAmp h
-  if normalizeAmp then stripAmpPrefix puny h else h
+  if normalizeAmp then stripAmpPrefix puny true h else h
 
 /-- `get_normalized_hostname(url, normalize_amp, infer_redirection)`; `hostOf s` is
 `urlsplit(s).hostname` (`none` for `ValueError` and for `None`) -/
